@@ -122,7 +122,9 @@ def longestruns(bits, n):
   return ok(H(m), H(vl), H(vu), L(hist))
 
 
-def rank(bits, n, r, c, k, check):
+def rank(bits, n, r, c, k, check, chi_rejects=False):
+  """`chi_rejects`: float oracle (Model/NistFloat.lean) — the float RankDistribution handed to ChiSquare
+  contains an invalid (underflowed) probability; documented behaviour: ValueError."""
   if min(r, c) < k:
     return 'err ValueError'
   if check and n < 38 * r * c:
@@ -137,6 +139,8 @@ def rank(bits, n, r, c, k, check):
     return 'err InsufficientDataError'
   approx = r == c and r >= 31 and k <= 5
   if not approx and (k == 0 or c < r):
+    return 'err ValueError'
+  if chi_rejects:
     return 'err ValueError'
   hist = [0] * (k + 1)
   for i in range(nm):
@@ -186,7 +190,8 @@ def notm(bits, n, nblocks, m, templates):
   return ok(H(m), H(bs), L(templates), fmt_rows(counts))
 
 
-def otm(bits, n, m, bs):
+def otm(bits, n, m, bs, chi_rejects=False):
+  """`chi_rejects`: float oracle — the float matrix power underflows and ChiSquare rejects a 0.0."""
   if m is None:
     m = 9
   if bs is None:
@@ -195,7 +200,7 @@ def otm(bits, n, m, bs):
     return 'err ZeroDivisionError'
   if n // bs == 0:
     return 'err InsufficientDataError'
-  if bs < m + 4:
+  if bs < m + 4 or chi_rejects:
     return 'err ValueError'
   hist = [0] * 6
   for blk in blocks_of(bitlist(bits, n), bs):
@@ -302,7 +307,8 @@ def apen(bits, n, mm):
   return ok(H(mm), H(n), ';'.join(fmt_pairs(l) for l in levels) if levels else '[]')
 
 
-def randomwalk(bits, n, ms, mc, msv):
+def randomwalk(bits, n, ms, mc, msv, exc_zero=False):
+  """`exc_zero`: float oracle — RandomExcursionsDistribution(x, max_cnt) has a 0.0 entry for a state in use."""
   if n == 0:
     return 'err ZeroDivisionError'
   e = bitlist(bits, n)
@@ -322,6 +328,8 @@ def randomwalk(bits, n, ms, mc, msv):
       cur.append(s)
   J = len(cycles)
   exh, tot = [], []
+  if J >= 500 and ms >= 1 and exc_zero:
+    return 'err ZeroDivisionError'
   if J >= 500:
     for x in [x for x in range(-ms, ms + 1) if x]:
       v = [0] * (mc + 1)
